@@ -37,6 +37,7 @@ var trustedBase = map[string]string{
 	"unicode.IsDigit":                   "unicode.IsDigit(r) = isDigitRune(r) (uninterpreted; axioms in std.spec)",
 	"strings.ContainsAny":               "strings.ContainsAny(s, chars) for a short constant ASCII chars = disjunction of strings.Contains(s, c)",
 	"strconv.Itoa":                      "strconv.Itoa(i) = itoa(i), the decimal text %d prints",
+	"(*strings.Builder)":                "a local strings.Builder is the text written to it: WriteString/WriteByte append, Len and String read it, Reset empties it",
 	"strings.TrimLeft":                  "strings.TrimLeft(s, \"0123456789\") = trimDigits(s): on an [a-z0-9]* string the result is empty or starts with a letter (axiom trim-digits)",
 }
 
